@@ -21,6 +21,7 @@ import (
 	metricstorage "github.com/flant/shell-operator/pkg/metric_storage"
 	"github.com/flant/shell-operator/pkg/metric_storage/operation"
 	"github.com/flant/shell-operator/pkg/metric_storage/vault"
+	shell_operator "github.com/flant/shell-operator/pkg/shell-operator"
 )
 
 func init() { suites["c16"] = runC16 }
@@ -75,6 +76,11 @@ type c16World struct {
 	ushape map[string]string // ungrouped metric name -> label names
 	gate   *c16Gate
 	fresh  int // counter for metric names never used before in this case
+	run    *c16Runner // the text path's scratch directory and bash hook (c16text.go)
+	// operator world (c16text.go): the storage is the HookMetricStorage of an assembled ShellOperator
+	op     *shell_operator.ShellOperator
+	opDir  string
+	cancel func()
 }
 
 // c16Gate is the prometheus.Registerer handed to the storage (ungrouped vecs) and to the grouped vault:
@@ -610,7 +616,7 @@ func (g *c16Gen) commit(hook string, ops []c16Op) {
 }
 
 func runC16(r *Run) {
-	r.Rule = "histories of 1..8 steps by 4 hooks through the real operation parser + MetricStorage.SendBatch on a private registry, observed by Gatherer.Gather() after every step. A step is one batch, or (22%) a CONCURRENT step: 2..4 batches of different hooks, each with its own group(s), sent by one goroutine each in a random start order while a gated Registerer (installed as MetricStorage.Registerer and as the vault's registerer) holds every first registration of a metric open until all calls were started; 70% of the concurrent steps let all their hooks report the same never-used grouped gauge and counter names. A concurrent step is judged against EVERY linearisation of its batches through the reference registry (return value of each call + scrape after all returned). Batches of 1..6 operations mixing up to 2 of 4 groups with ungrouped operations; metric names shared between groups; label sets over the names a, b, x, y (two sorting before `hook`, two after; each present with 30%) with ONE pool of 3 values for all names (equal values under different names), 10% explicit empty values, a `hook` label that must be overridden (15%); action/value and shortcut (`add`/`set`) forms, integer and half-fractional values, explicit expire at any position, 14% of the batches carry one invalid operation (10 kinds) at a random position. Generators stay outside the recorded finding classes (same series written by two groups, name used grouped and ungrouped, ungrouped label-name change, one name with two types), which are replayed as separate known cases. Non-trivial: >= 2 batches, at least one grouped and one valid batch; distinct = distinct op-line sequences."
+	r.Rule = "histories of 1..8 steps by 4 hooks through the real operation parser + MetricStorage.SendBatch on a private registry, observed by Gatherer.Gather() after every step. A step is one batch, or (22%) a CONCURRENT step: 2..4 batches of different hooks, each with its own group(s), sent by one goroutine each in a random start order while a gated Registerer (installed as MetricStorage.Registerer and as the vault's registerer) holds every first registration of a metric open until all calls were started; 70% of the concurrent steps let all their hooks report the same never-used grouped gauge and counter names. A concurrent step is judged against EVERY linearisation of its batches through the reference registry (return value of each call + scrape after all returned). Batches of 1..6 operations mixing up to 2 of 4 groups with ungrouped operations; metric names shared between groups; label sets over the names a, b, x, y (two sorting before `hook`, two after; each present with 30%) with ONE pool of 3 values for all names (equal values under different names), 10% explicit empty values, a `hook` label that must be overridden (15%); action/value and shortcut (`add`/`set`) forms, integer and half-fractional values, explicit expire at any position, 14% of the batches carry one invalid operation (10 kinds) at a random position. Generators stay outside the recorded finding classes (same series written by two groups, name used grouped and ungrouped, ungrouped label-name change, one name with two types), which are replayed as separate known cases. Non-trivial: >= 2 batches, at least one grouped and one valid batch; distinct = distinct op-line sequences. TEXT steps (30% of the sequential steps): the batch is spelled as the text of the metrics file a hook leaves behind (member order, blanks between all tokens, key case, six number spellings per value, \\u escapes, unknown members with nested brackets in strings, nulls for absent fields, duplicate keys; documents joined with or without blanks) and, in 35% of them, damaged in the shapes of harness/c04out.go (cut off inside the last document, stray closers before/between/after documents, trailing garbage, wrong JSON types per field, bad tokens, separators, top-level non-objects, an operation validation rejects; 4%: blank file); the text goes the way a hook's file goes: MetricOperationsFromFile + SendBatch with the hook label unless reading failed (what Hook.Run + handleRunHook do), 10% through a real bash hook and Hook.Run, and in operator worlds (4% of the cases: an assembled ShellOperator with a real hook manager and four bash hooks, its HookMetricStorage is the registry of the case) through the real queue handler taskHandler -> taskHandleHookRun -> handleRunHook. Whether a text is acceptable is decided by the Lean driver from the bytes (HookOutput.metricsOk); a rejected text must fail the execution and leave the scrape unchanged, an accepted one goes through the reference registry."
 	// ---- corpus: the repaired defects (must now hold) ----
 	r.One(0, func(c *Case, _ *Rng) {
 		c.Desc = "corpus: grouped {\"add\":1} shortcut counts once (was applied twice)"
@@ -667,6 +673,78 @@ func runC16(r *Run) {
 			{"h2", []c16Op{{Group: "gb", Action: "expire"}}},
 			{"h1", []c16Op{{Name: "gn", Group: "ga", Action: "set", Value: ip(6), Labels: map[string]string{"b": "1"}}}},
 		}, []int{0, 1})
+	})
+	r.One(6, func(c *Case, _ *Rng) {
+		c.Desc = "corpus text: a real bash hook writes its metrics file; then a file whose LAST operation is cut off (after two complete ones that would replace group ga): nothing applied, the execution fails"
+		c.Nontrivial = true
+		w := newC16World(c)
+		a := c16Op{Name: "gg1", Group: "ga", Action: "set", Value: ip(6), Labels: map[string]string{"x": "1"}}
+		b := c16Op{Name: "gg1", Group: "ga", Action: "set", Value: ip(8), Labels: map[string]string{"x": "2"}}
+		u := c16Op{Name: "ug1", Set: ip(3)}
+		w.sendText(r, "h1", []c16Op{a, b, u}, a.jsonLine()+"\n"+b.jsonLine()+"\n"+u.jsonLine()+"\n", "run")
+		full := a.jsonLine() + "\n" + u.jsonLine() + "\n" + b.jsonLine()
+		w.sendText(r, "h1", []c16Op{a, u, b}, full[:len(full)-1], "run")
+		w.sendText(r, "h1", []c16Op{a, u, b}, full[:len(full)-9], "file")
+		w.sendText(r, "h1", []c16Op{a, u}, a.jsonLine()+u.jsonLine()+"\n{", "file")
+		w.sendText(r, "h2", []c16Op{a}, "\n "+a.jsonLine(), "file")
+	})
+	r.One(7, func(c *Case, _ *Rng) {
+		c.Desc = "corpus text: blank file, stray closer, wrong type, text between documents, an operation validation rejects, top-level null, array of operations — all after a valid first document"
+		c.Nontrivial = true
+		w := newC16World(c)
+		a := c16Op{Name: "gc1", Group: "gb", Add: ip(3)}
+		u := c16Op{Name: "uh1", Action: "observe", Value: ip(4), Buckets: true}
+		w.sendText(r, "h1", []c16Op{a, u}, "{ \"add\" : 15e-1 , \"GROUP\":\"gb\",\"name\":\"\\u0067c1\",\"labels\":null}"+u.jsonLine(), "file")
+		w.sendText(r, "h1", nil, "", "file")
+		w.sendText(r, "h1", nil, " \n\t", "run")
+		for _, tail := range []string{"}", "\n]\n", ",", " xyz", "{\"name\":5,\"set\":1}", "{\"name\":\"ug1\",\"set\":\"1\"}", "{\"name\":\"ug1\",\"action\":\"bogus\",\"value\":1}",
+			"null", "{}", "[" + u.jsonLine() + "]", "{\"name\":\"ug1\",\"set\":1,}", "{\"name\":\"ug1\",\"set\":01}", "{\"name\":\"ug1\",\"set\":1"} {
+			w.sendText(r, "h1", []c16Op{{Name: "gc1", Group: "gb", Add: ip(5)}}, "{\"name\":\"gc1\",\"group\":\"gb\",\"add\":2.5}\n"+tail, "file")
+		}
+		w.send("h1", []c16Op{{Group: "gb", Action: "expire"}})
+	})
+	r.One(8, func(c *Case, _ *Rng) {
+		c.Desc = "corpus text: the real queue handler (taskHandler -> handleRunHook -> Hook.Run) of an assembled ShellOperator runs bash hooks: a valid file, a file cut off in its last operation, a file with an operation validation rejects, a blank file, then a typed batch on the same registry"
+		c.Nontrivial = true
+		w, err := newC16OpWorld(r, c)
+		if err != nil {
+			c.Inconcl = "operator world: " + firstLine(err.Error())
+			return
+		}
+		defer w.cancel()
+		a := c16Op{Name: "gg1", Group: "ga", Action: "set", Value: ip(6), Labels: map[string]string{"x": "1"}}
+		b := c16Op{Name: "gc1", Group: "ga", Add: ip(3), Labels: map[string]string{"x": "2"}}
+		u := c16Op{Name: "ug1", Set: ip(3)}
+		w.sendText(r, "h1.sh", []c16Op{a, b, u}, a.jsonLine()+"\n"+b.jsonLine()+"\n"+u.jsonLine()+"\n", "operator")
+		full := b.jsonLine() + "\n" + u.jsonLine() + "\n" + a.jsonLine()
+		w.sendText(r, "h1.sh", []c16Op{b, u, a}, full[:len(full)-3], "operator")
+		w.sendText(r, "h2.sh", []c16Op{b, {Name: "ug1", Action: "expire"}}, b.jsonLine()+"{\"name\":\"ug1\",\"action\":\"expire\"}", "operator")
+		w.sendText(r, "h1.sh", nil, "\n", "operator")
+		w.send("h1.sh", []c16Op{{Name: "gg1", Group: "ga", Action: "set", Value: ip(2), Labels: map[string]string{"x": "3"}}})
+		w.sendText(r, "h1.sh", []c16Op{{Group: "ga", Action: "expire"}}, "{\"group\":\"ga\",\"action\":\"expire\"}", "operator")
+	})
+	r.One(9, func(c *Case, _ *Rng) {
+		c.Desc = "corpus text: EVERY prefix of a three-operation metrics file, shortest first, as one history on one registry: only the cuts at the end of a document are accepted (and apply exactly the complete documents), every cut inside a document fails and applies nothing"
+		c.Nontrivial = true
+		w := newC16World(c)
+		ops := []c16Op{
+			{Name: "gg1", Group: "ga", Action: "set", Value: ip(7), Labels: map[string]string{"x": "1"}},
+			{Name: "uc1_total", Add: ip(2)},
+			{Name: "gc1", Group: "ga", Action: "add", Value: ip(3), Labels: map[string]string{"b": "2"}},
+		}
+		text, ends := "", []int{}
+		for _, o := range ops {
+			text += o.jsonLine()
+			ends = append(ends, len(text))
+			text += "\n"
+		}
+		for n := 0; n <= len(text); n++ {
+			k := 0
+			for k < len(ends) && ends[k] <= n {
+				k++
+			}
+			w.sendText(r, "h1", ops[:k], text[:n], "file")
+		}
 	})
 	// ---- known findings, replayed on every run ----
 	r.One(10, func(c *Case, _ *Rng) {
@@ -735,15 +813,29 @@ func runC16(r *Run) {
 	})
 
 	r.Cases(100, r.N(4000, 60000), 0, func(c *Case, rng *Rng) {
-		w := newC16World(c)
+		var w *c16World
+		hooksList := c16Hooks
+		if rng.Chance(4) {
+			// operator world: hook executions go through the real queue handler of an assembled ShellOperator
+			ow, err := newC16OpWorld(r, c)
+			if err != nil {
+				c.Inconcl = "operator world: " + firstLine(err.Error())
+				return
+			}
+			w, hooksList = ow, c16OpHooks
+			defer w.cancel()
+			c.Note("world:operator")
+		} else {
+			w = newC16World(c)
+		}
 		g := &c16Gen{w: w, rng: rng}
 		nb := rng.Range(1, 8)
-		valid, grouped, conc := 0, 0, 0
+		valid, grouped, conc, texts := 0, 0, 0, 0
 		for b := 0; b < nb; b++ {
 			if rng.Chance(22) {
 				// concurrent step: 2..4 hooks, each with its own group(s), send at the same time
 				k := rng.Range(2, 4)
-				hooks := append([]string{}, c16Hooks...)
+				hooks := append([]string{}, hooksList...)
 				groups := append([]string{}, c16Groups...)
 				rng.Shuffle(len(hooks), func(i, j int) { hooks[i], hooks[j] = hooks[j], hooks[i] })
 				rng.Shuffle(len(groups), func(i, j int) { groups[i], groups[j] = groups[j], groups[i] })
@@ -786,8 +878,41 @@ func runC16(r *Run) {
 				c.Note(fmt.Sprintf("step:concurrent-%d", k))
 				continue
 			}
-			hook := PickOne(rng, c16Hooks)
+			hook := PickOne(rng, hooksList)
 			ops, invalid := g.batch(hook, c16Groups)
+			if rng.Chance(30) {
+				// text step: the batch as the text of the hook's metrics file
+				if rng.Chance(4) {
+					ops, invalid = nil, false // the hook wrote nothing / blanks only
+				}
+				damage := len(ops) > 0 && rng.Chance(35)
+				text, shape := c16Text(rng, ops, damage, c)
+				via := "file"
+				if rng.Chance(10) {
+					via = "run"
+				}
+				if w.op != nil && rng.Chance(75) {
+					via = "operator"
+				}
+				c.Note("text:" + shape)
+				c.Note("text-via:" + via)
+				w.sendText(r, hook, ops, text, via)
+				if c.Inconcl != "" {
+					return
+				}
+				texts++
+				if !invalid && !damage {
+					valid++
+					g.commit(hook, ops)
+				}
+				for _, o := range ops {
+					if o.Group != "" {
+						grouped++
+						break
+					}
+				}
+				continue
+			}
 			w.send(hook, ops)
 			if !invalid {
 				valid++
@@ -801,6 +926,9 @@ func runC16(r *Run) {
 			}
 		}
 		c.Note(fmt.Sprintf("batches:%d", nb))
+		if texts > 0 {
+			c.Note("case:with-text-steps")
+		}
 		c.Nontrivial = (nb >= 2 || conc >= 1) && valid >= 1 && grouped >= 1
 	})
 	if r.Thorough() {
